@@ -33,7 +33,7 @@ fn payload(rng: &mut Rng) -> Vec<u8> {
             }
         }
         1 | 2 => {
-            let n = *rng.pick(&[1usize, 2, 40, 74, 75, 76, 77, 80, 83, 255, 256, 300, 520, 4000]);
+            let n = *rng.pick(&[1usize, 2, 40, 74, 75, 76, 77, 80, 83, 255, 256, 300, 520, 4000, 9_990, 9_996, 9_997, 10_001, 20_000, 70_000]);
             text(rng, n)
         }
         3 | 4 => {
